@@ -143,6 +143,16 @@ pub fn cases(tier: Tier, seed: u64) -> Vec<Case> {
                     add(format!("p_eval={bad}"), PartyArgs { p_eval: bad, ..ok.clone() });
                     add(format!("p_out_element={bad}"), PartyArgs { p_out: vec![0, bad], ..ok.clone() });
                     add(format!("p_out_only={bad}"), PartyArgs { p_out: vec![bad], ..ok.clone() });
+                    // the invalid index at every position of sorted, unsorted and repeating lists
+                    for tmpl in [vec![0usize], vec![0, 1], vec![1, 0], vec![0, 0], vec![n - 1, 0, n - 1]] {
+                        for pos in 0..=tmpl.len() {
+                            let mut l = tmpl.clone();
+                            l.insert(pos, bad);
+                            if l != vec![0, bad] {
+                                add(format!("p_out_element={bad} at {pos} of {tmpl:?}"), PartyArgs { p_out: l, ..ok.clone() });
+                            }
+                        }
+                    }
                 }
                 add("p_out_empty=[]".into(), PartyArgs { p_out: vec![], ..ok.clone() });
                 for k in [0usize, 1, 3, 7] {
@@ -223,7 +233,7 @@ pub fn cases(tier: Tier, seed: u64) -> Vec<Case> {
 
 pub fn run(tier: Tier, seed: u64) -> i32 {
     let ctx = Ctx::new("C18", tier, seed, "exploration");
-    ctx.set_rule("systematic enumeration, n in {2,3}, every evaluator choice: one argument invalid at a time (p_own, p_eval, p_out element at boundary n, n+1 and far out of range, empty p_out, input length 0/1/3/7 instead of 2) at one party while the others are honest - oracle: that party returns Err with zero channel operation attempts (starts are recorded by the network) and nobody panics; circuits failing validation at all parties - Err with zero attempts; p_out with repeated / unsorted indices - either rejected that way or every party behaves as for the deduplicated set (clear-text result); circuit descriptions that pass validation but whose counters disagree with their instructions (and_ops, misplaced / surplus Input, Input.party / Input.input out of range, input_regs vs instructions, oversized max_reg_count; single and all paired mutations) - no party panics; every case is executed without a tracing subscriber and under one that enables every span and event; distinct by hash of the case");
+    ctx.set_rule("systematic enumeration, n in {2,3}, every evaluator choice: one argument invalid at a time (p_own, p_eval, p_out element at boundary n, n+1 and far out of range at every position of sorted / unsorted / repeating lists, empty p_out, input length 0/1/3/7 instead of 2) at one party while the others are honest - oracle: that party returns Err with zero channel operation attempts (starts are recorded by the network) and nobody panics; circuits failing validation at all parties - Err with zero attempts; p_out with repeated / unsorted indices - either rejected that way or every party behaves as for the deduplicated set (clear-text result); circuit descriptions that pass validation but whose counters disagree with their instructions (and_ops, misplaced / surplus Input, Input.party / Input.input out of range, input_regs vs instructions, oversized max_reg_count; single and all paired mutations) - no party panics; every case is executed without a tracing subscriber and under one that enables every span and event; distinct by hash of the case");
     let all = cases(tier, seed);
     ctx.extra("enumerated_cases", json!(all.len()));
     enumerate(&ctx, &all, test_case);
